@@ -50,6 +50,9 @@ structure NetEnv where
   E : AEnv
   envOf : Addr → Env
   h0 : Addr → Height
+  /-- sender addresses whose gossiped messages `driver.listen` drops before they reach the state
+  machine (d65a60f: `isSyncPseudoSender`); nobody runs a validator under such an address -/
+  excl : Addr → Prop := fun _ => False
 
 structure Net where
   node : Addr → DNode
@@ -64,6 +67,12 @@ def Deliverable (E : AEnv) (net : Net) : VCChange → Prop
   | .vote v .prevote => E.byz v.sender ∨ Action.bcastPrevote v ∈ (net.node v.sender).out
   | .vote v .precommit => E.byz v.sender ∨ Action.bcastPrecommit v ∈ (net.node v.sender).out
   | .proposal p => E.byz p.sender ∨ Action.bcastProposal p ∈ (net.node p.sender).out
+  | .futureQ _ _ _ => True
+
+/-- `listen` hands the message to the state machine: its sender is not an excluded address -/
+def Passes (X : Addr → Prop) : VCChange → Prop
+  | .vote v _ => ¬ X v.sender
+  | .proposal p => ¬ X p.sender
   | .futureQ _ _ _ => True
 
 /-- the node after the driver fed input `i` to the state machine and executed the actions -/
@@ -81,7 +90,7 @@ inductive NetStep (N : NetEnv) : Net → Net → Prop
   /-- inner loop: one event (a timeout, a delivered message, a sync result) -/
   | event (net : Net) (p : Addr) (i : Input) :
       ¬ N.E.byz p → (net.node p).needStart = false → IsEvent i →
-      (∀ c, RecvOf i c → Deliverable N.E net c) →
+      (∀ c, RecvOf i c → Deliverable N.E net c ∧ Passes N.excl c) →
       NetStep N net (net.set p ((net.node p).feed (N.envOf p) i))
 
 inductive NetReach (N : NetEnv) : Net → Prop
